@@ -138,6 +138,12 @@ def rules(chk, db):
     chk.rule('EP', 'no end pointer is formed by subscripting a std::array / std::vector at its extent (operator[] precondition)', minimum=2)
     end_pointers(chk, db, 'EP')
     tablerules.rules(chk, db, {'TS', 'TR'})
+    # "after a failed read the destination is still valid to destroy, inspect and read into again": sum-type destinations are
+    # re-seated by the decoder through Become / assignment / clear; those operations keep index / state and element lifetime
+    # consistent from every reachable state, also when an element constructor throws half-way (typestate rules, see C12 / C13)
+    from . import c12, c13
+    c12.explore(chk, db, prefix='TV.')
+    c13.typestate(chk, db, prefix='TS.')
 
 
 def run(chk, db):
